@@ -72,6 +72,9 @@ PROPS = {
             {"scen": "hostile_cli", "sets": {}, "quick": 4000, "thorough": 300000},
             {"scen": "hostile_cli", "sets": {"raw": True}, "quick": 500, "thorough": 30000},
             {"scen": "hostile_cli", "sets": {"focus": "spoof"}, "quick": 1200, "thorough": 80000},
+            {"scen": "hostile_cli", "sets": {"focus": "spoof", "raw": True}, "quick": 600, "thorough": 40000},
+            {"scen": "fakesrv", "sets": {}, "quick": 2500, "thorough": 200000},
+            {"scen": "fakesrv", "sets": {"raw": True}, "quick": 500, "thorough": 40000},
         ],
         "expect_probes": ["c06.replaced.v", "c06.replaced.l", "c06.replaced.y", "c06.replaced.z", "c06.replaced.s", "c06.replaced.o", "c06.replaced.r", "c06.replaced.n", "c06.replaced.p", "c06.replaced.i", "c06.raw_replaced"],
     },
@@ -81,6 +84,7 @@ PROPS = {
                 "non-trivial = >=1 login answer replaced; distinct = distinct run fingerprints",
         "jobs": [
             {"scen": "hostile_cli", "sets": {"focus": "login"}, "quick": 6000, "thorough": 300000},
+            {"scen": "fakesrv", "sets": {"focus": "login"}, "quick": 3000, "thorough": 150000},
         ],
         "expect_probes": ["c06.login_replaced", "c13.system_calls"],
     },
